@@ -217,6 +217,16 @@ pub fn run_case_x(env: &BDDEnv<usize>, x: &Sx, xenv: bool) -> String {
     let r = catch_unwind(AssertUnwindSafe(|| it.eval(x, &None)));
     match r {
         Ok(Ok(b)) => {
+            // the public predicates on the answer say what the structure is (C01: valid = the true leaf, unsatisfiable = the false leaf)
+            let want = match b.as_ref() {
+                rsbdd::bdd::BDD::True => (true, false, true, false),
+                rsbdd::bdd::BDD::False => (false, true, true, false),
+                rsbdd::bdd::BDD::Choice(..) => (false, false, false, true),
+            };
+            let got = (b.is_true(), b.is_false(), b.is_const(), b.is_choice());
+            if got != want {
+                return format!("(predicates-disagree-with-structure is_true={} is_false={} is_const={} is_choice={})", got.0, got.1, got.2, got.3);
+            }
             let mut s = String::from("(ok ");
             show(&b, &mut s);
             s.push(')');
